@@ -291,3 +291,13 @@ Definition rn_read_index (n : rawnode) (rctx : list N) : Res rawnode :=
   x <- step (rn_raft n) (msg_default <| m_type := MsgReadIndex |>
                            <| m_entries := [mkEntry EntryNormal 0 0 rctx []] |>) ;;
   Ok (n <| rn_raft := fst x |>).
+
+(* RawNode::new *)
+Definition rn_new (c : config) (st : MemStorage.mem) (snap_app : option N) (draws : list N)
+  : Res (N + rawnode) :=
+  if c_id c =? 0 then Panic site_rn_id_zero else
+  x <- raft_new c st snap_app draws ;;
+  match x with
+  | inl e => Ok (inl e)
+  | inr r => Ok (inr (mkRN r (soft_state_of r) (Raft.hard_state_of r) 0 [] (c_applied c)))
+  end.
